@@ -1,10 +1,15 @@
 import Driver.ProgJson
+import Driver.Check
 import Heph.Model.Mutation
+import Heph.Model.Overwrite
 /-! ops of the mutation family (C03, C04): program diffs, the feasibility test on an exported
     type graph, the choice of the combination, `str()` of types / the error message,
     unrelatedness.  Paths are answered root first, as `[[group, index], …]`. -/
 open Lean Heph Heph.Mut
 namespace Driver.Mut
+
+def obJson (strict : Bool) (o : Heph.Check.Ob) : Json :=
+  Json.arr #[ofStrList o.path, Json.str o.tag, Json.str o.j.detail, Json.str o.j.kinds, Json.bool strict]
 
 def fieldJson : Field → Json
   | .varType => Json.arr #[Json.str "varType"]
@@ -194,6 +199,38 @@ def handle : Handler := fun op j =>
       let bn ← parsePairs j "bnames"
       let ts ← tyListAt tbl j "ts"
       pure (res (ofStrList (ts.map (pyStr bn)))))
+  | "mut.wt" => some (do
+      -- {program export + "bt"} → {"ok": strictOk, "lenient": checkProgram = ok, "n": obligations,
+      --  "nfail", "fail": [[path, tag, detail, kinds, strict?] …] (first 60)}: the checker of C01 plus the strict
+      --  reading of bottom constants (Model/Overwrite.lean)
+      let (tbl, p) ← parseProgramObj j
+      let lt ← Driver.Check.parseLangTypes tbl j
+      let f1 := Heph.Check.failures lt p
+      let f2 := strictFailures lt p
+      pure (res (Json.mkObj [("ok", Json.bool (strictOk lt p)), ("lenient", Json.bool f1.isEmpty),
+        ("n", Json.num (JsonNumber.fromNat (Heph.Check.progObs lt p).length)),
+        ("nfail", Json.num (JsonNumber.fromNat (f1.length + f2.length))),
+        ("fail", Json.arr (((f1.map (obJson false)) ++ (f2.map (obJson true))).take 60).toArray)])))
+  | "mut.pick_arg" => some (do
+      -- {tt, "tparams": [idx], "args": [idx], "tvars": [[idx, inferred?] …], "k": draw [, "expect": idx of old]}
+      --  → "no-type-param" | "KeyError" | {"index": i, "old": true | tree, "constrained": number}
+      let tbl ← parseTable j
+      let tps ← tyListAt tbl j "tparams"
+      let args ← tyListAt tbl j "args"
+      let tvs ← (← getArr j "tvars").toList.mapM fun e => do
+        let a ← e.getArr?
+        if a.size != 2 then throw "tvars entry must be [type, inferred]"
+        let i ← a[0]!.getNat?
+        match tbl[i]?, a[1]! with
+        | some t, .bool b => pure ({ t := t, inferred := b } : TVar)
+        | _, _ => throw "tvars entry must be [type index, bool]"
+      let k ← getNat j "k"
+      match pickArg tps args tvs k with
+      | .noTypeParam => pure (res (Json.str "no-type-param"))
+      | .keyError => pure (res (Json.str "KeyError"))
+      | .arg i old => pure (res (Json.mkObj [("index", Json.num (JsonNumber.fromNat i)), ("old", answerTy tbl j old),
+          ("constrained", Json.num (JsonNumber.fromNat (constrained tvs).length)),
+          ("distinct", Json.bool (distinctParams tps))])))
   | "mut.unrelated" => some (do
       let tbl ← parseTable j
       pure (res (relJson (← parsePairs j "extra") (← tyAt tbl j "a") (← tyAt tbl j "b"))))
